@@ -113,6 +113,7 @@ func (c *cluster) monitor() []finding {
 	storedPayload := map[uint64]bool{}
 	lastGateCommit := map[string]uint64{}
 	followerLeader := map[uint64][2]uint64{} // node -> (leader id, term) advertised
+	var restores []hev
 	deliveredBy := map[[5]uint64]uint64{}    // (receiver, idx, term, type, payload) -> sending leader
 	// diagnosis of finding F3-ii: the entry was served by a leader from at or below its own snapshot index
 	servedBelowSnapshot := func(receiver uint64, ent [4]uint64) bool {
@@ -379,6 +380,21 @@ func (c *cluster) monitor() []finding {
 			calls[e.a] = e
 			maxAckedBefore[e.a] = maxAcked
 		case "ret":
+			if e.s == "restore" && e.b == 0 {
+				restores = append(restores, e)
+			}
+			if e.s == "barrier" && e.b == 0 {
+				// a successful Barrier returns only after the local FSM applied every command
+				// acknowledged... committed before it: every command stored below its index on this server
+				v := views[e.node]
+				for idx, le := range v.log {
+					if idx < e.c && le[2] == 0 {
+						if _, ok := v.applied[idx]; !ok {
+							add("C08", "barrier-returned-before-earlier-entry-applied", "seq %d: Barrier on server %d returned at index %d but its FSM has not been given %v", e.seq, e.node, e.c, le)
+						}
+					}
+				}
+			}
 			if e.s == "apply" {
 				if e.b == 0 {
 					acks = append(acks, ack{idx: e.c, pay: e.d, seq: e.seq, kind: "apply"})
@@ -409,6 +425,121 @@ func (c *cluster) monitor() []finding {
 	for node, lt := range followerLeader {
 		if lt[0] != node && !leadersByTerm[lt[1]][lt[0]] {
 			add("C18", "advertised-leader-never-led-that-term", "server %d names %d as leader of term %d", node, lt[0], lt[1])
+		}
+	}
+	// C09: VerifyLeader succeeded => after the call was made, a majority of the voters (caller
+	// included) answered an exchange of the caller's term that was SENT after the call
+	{
+		type sendInfo struct {
+			seq, to, term uint64
+		}
+		sends := map[uint64]sendInfo{} // send seq -> info (AppendEntries / heartbeats only)
+		okResp := map[uint64]uint64{}  // send seq -> seq of the Success answer in the sender's term
+		delivered := map[uint64]uint64{} // send seq -> seq at which the caller was handed the answer
+		sender := map[uint64]uint64{}
+		for _, e := range evs {
+			if e.kind == "send" && e.b == 3 {
+				sends[e.seq] = sendInfo{e.seq, e.a, e.c}
+				sender[e.seq] = e.node
+			}
+			if e.kind == "dlv" && e.b == 3 {
+				var ss uint64
+				fmt.Sscan(e.s, &ss)
+				delivered[ss] = e.seq
+			}
+			if e.kind == "resp" && e.b == 3 && e.e == 1 {
+				var ss uint64
+				fmt.Sscan(e.s, &ss)
+				if si, ok := sends[ss]; ok && e.d == si.term {
+					okResp[ss] = e.seq
+				}
+			}
+		}
+		for _, r := range evs {
+			if r.kind != "ret" || r.s != "verify" || r.b != 0 {
+				continue
+			}
+			call := calls[r.a]
+			cfg, ok := c.latestConfigIn(views[r.node].log, 0)
+			if !ok {
+				continue
+			}
+			vs := votersOf(cfg)
+			freshSent, freshResp, nonVoter := map[uint64]bool{}, map[uint64]bool{}, map[uint64]bool{}
+			for ss, si := range sends {
+				_, answered := okResp[ss]
+				ds, handed := delivered[ss]
+				// counted by the leader = handed to it between the call and its return
+				// (an answer handed over just before the call may still be on its way through the
+				// replication goroutine when the call registers: 60 events of slack, voters only)
+				if !answered || !handed || sender[ss] != r.node || ds > r.seq || ds+60 < call.seq {
+					continue
+				}
+				if ds < call.seq && !vs[si.to] {
+					continue
+				}
+				if vs[si.to] {
+					freshResp[si.to] = true
+					if ss > call.seq {
+						freshSent[si.to] = true
+					}
+				} else {
+					nonVoter[si.to] = true
+				}
+			}
+			self := 0
+			if vs[r.node] {
+				self = 1
+			}
+			if 2*(len(freshSent)+self) > len(vs) {
+				continue
+			}
+			sig := "verify-succeeded-without-fresh-voter-majority"
+			if 2*(len(freshResp)+self) > len(vs) {
+				sig += "-exchange-sent-before-the-call-counted" // F2b
+			} else if 2*(len(freshResp)+len(nonVoter)+self) > len(vs) {
+				sig += "-non-voter-acknowledgement-counted" // F2
+			}
+			add("C09", sig, "seq %d: VerifyLeader on server %d returned nil; voters answering an exchange sent after the call: %v, answering after the call: %v, non-voters answering: %v, %d voters",
+				r.seq, r.node, sortedIDs(freshSent), sortedIDs(freshResp), sortedIDs(nonVoter), len(vs))
+		}
+	}
+	// C20: after a successful Restore every acknowledged Apply is either before the restore (and then
+	// wiped) or gets an index above the restore's; calls aborted by the restore leave no trace afterwards
+	for _, rs := range restores {
+		// the index burned by this restore = index of the restore snapshot on the leader
+		var burned uint64
+		for _, e := range evs {
+			if e.kind == "snap" && e.node == rs.node && e.seq < rs.seq && e.c == 1 && e.a > burned {
+				burned = e.a
+			}
+		}
+		for _, e := range evs {
+			if e.kind == "ret" && e.s == "apply" && e.b == 0 && e.seq > rs.seq {
+				if cl, ok := calls[e.a]; ok && cl.seq > rs.seq && e.c <= burned {
+					add("C20", "entry-after-restore-not-above-burned-index", "apply %d issued after the restore was acknowledged at %d, the restore burned index %d", e.d, e.c, burned)
+				}
+			}
+			if e.kind == "ret" && e.s == "apply" && e.b == 6 {
+				// aborted by the restore: no trace in the final state - a server that has taken over the
+				// restored state (FSM.Restore after the restore) must not be given that command afterwards
+				for _, id := range c.ids {
+					var restoredAt uint64
+					for _, a := range evs {
+						if a.kind == "restore" && a.node == id && a.seq > rs.seq-200 && restoredAt == 0 && a.seq > calls[rs.a].seq {
+							restoredAt = a.seq
+						}
+					}
+					if restoredAt == 0 {
+						continue
+					}
+					for _, a := range evs {
+						if a.kind == "apply" && a.node == id && a.d == e.d && a.seq > restoredAt {
+							add("C20", "aborted-call-applied-after-restore", "apply %d failed with ErrAbortedByRestore but reached the FSM of server %d after it had taken over the restored state", e.d, a.node)
+						}
+					}
+				}
+			}
 		}
 	}
 	// C08: exactly once per FSM, definite failures leave no trace
